@@ -709,6 +709,19 @@ def c08_corpus(seed, tier, adversarial):
                 ops.append({"op": nat, "g": 2, "n": 2})
                 sid += 1
         S.case("%s from_rng with leading zero blocks" % kind, ops)
+        # blocks that are zero except for ONE byte: the "is the block all zero?" test must look at every byte
+        ops, sid = [], 1
+        positions = range(L) if (L <= 16 or tier != "quick") else sorted({0, 1, L // 2, L - 9, L - 8, L - 5, L - 4, L - 3, L - 2, L - 1})
+        for pos in positions:
+            for fallible in (False, True):
+                blk = [0] * L
+                blk[pos] = rng.choice([1, 0x80, 0xFF])
+                tail = [rng.getrandbits(8) | 1 for _ in range(2 * L)]
+                ops.append({"op": "src", "s": sid, "bytes": blk + tail, "fallible": fallible})
+                ops.append({"op": "try_from_rng" if fallible else "from_rng", "g": 1, "kind": kind, "s": sid})
+                ops.append({"op": nat, "g": 1, "n": 2})
+                sid += 1
+        S.case("%s from_rng with almost-zero blocks" % kind, ops)
     return S
 
 
@@ -752,6 +765,16 @@ def c09_corpus(seed, tier):
                     ops.append({"op": "try_from_rng", "g": g, "kind": kind, "s": sid})
                     ops.append({"op": "drop", "g": g})
                 sid += 1
+        if kind in LINEAR:
+            # an almost-zero block (one non-zero byte) must be accepted at once: a wrong redraw would run into the failure
+            L = SEEDLEN[kind]
+            for pos in (range(L) if L <= 16 else (0, L // 2, L - 4, L - 1)):
+                blk = [0] * L
+                blk[pos] = 0x40
+                ops.append({"op": "src", "s": sid, "bytes": blk + [rng.getrandbits(8) | 1 for _ in range(2 * L)], "fallible": True, "fail_at": 2})
+                ops.append({"op": "try_from_rng", "g": 1, "kind": kind, "s": sid})
+                ops.append({"op": "drop", "g": 1})
+                sid += 1
         # and one successful try_from_rng whose generator is compared with from_rng of the same bytes
         b = [rng.getrandbits(8) for _ in range(2 * n + 3)]
         ops += [{"op": "src", "s": 90, "bytes": b}, {"op": "src", "s": 91, "bytes": b, "fallible": True},
@@ -791,7 +814,8 @@ def lockstep(ops_list, gs):
 
 
 def suffix_ops(kind, rng, blockbytes):
-    ops = [("fill_bytes", 5), ("next_u32", 0), ("next_u64", 0), ("next_u32", 0)]
+    # the first operation is next_u32: it is the one that observes a pending half word
+    ops = [("next_u32", 0), ("fill_bytes", 5), ("next_u32", 0), ("next_u64", 0), ("next_u32", 0)]
     if blockbytes:
         ops += [("fill_bytes", blockbytes + 3), ("next_u32", 0), ("next_u64", 0), ("fill_bytes", 1)]
     else:
@@ -1014,13 +1038,12 @@ def c19_corpus(seed, tier, scheds):
                     if x["op"] != "timer":
                         x["th"] = th
             return o
+        solo = []          # each entry: the ops of ONE solo run, executed in a process of its own
         for g in (1, 2):
             N = words_needed(outs[g], WORDBYTES[kind[g]])
-            ops += ctor(g, 10 + g)
-            ops.append({"op": native_op(kind[g]), "g": 10 + g, "n": N, "role": "twin", "of": g})
+            solo.append(ctor(g, 10 + g) + [{"op": native_op(kind[g]), "g": 10 + g, "n": N, "role": "twin", "of": g}])
             if kind[g] == "SplitMix64":
-                ops += ctor(g, 20 + g)
-                ops.append({"op": "next_u32", "g": 20 + g, "n": N, "role": "twin32", "of": g})
+                solo.append(ctor(g, 20 + g) + [{"op": "next_u32", "g": 20 + g, "n": N, "role": "twin32", "of": g}])
         ops.append({"op": "bg_start", "threads": 2, "kinds": [k for k in {k1, k2} if k != "JitterRng"] or ["Xoshiro256PlusPlus"]})
         cnt = {1: 0, 2: 0}
         for (g, t, what) in sc:
@@ -1034,7 +1057,8 @@ def c19_corpus(seed, tier, scheds):
                     o["n"] = nn
                 ops.append(o)
         ops.append({"op": "bg_stop"})
-        S.case("interleaving #%d %s|%s%s" % (ci, k1, k2, " same seed" if same_seed else ""), ops)
+        cid = S.case("interleaving #%d %s|%s%s" % (ci, k1, k2, " same seed" if same_seed else ""), ops)
+        S.cases[-1]["solo"] = solo
     return S
 
 
